@@ -689,16 +689,29 @@ Proof.
       destruct (Hondisk _ _ Hv (Hnodirty _ Hi)). lia.
   - (* small: through the read buffer *)
     assert (Hpost : forall s', Inv s' I -> last_rd_block (c_ s') = b -> last_rd_file (c_ s') = f ->
-              read_post I f b o len (RBytes (bufsub (rd_buf (c_ s')) o len))).
-    { intros. eapply read_from_rd_buffer; eauto; lia. }
+              Inv (snd (serve_rd s' o len)) I /\ read_post I f b o len (fst (serve_rd s' o len)) /\
+              files (snd (serve_rd s' o len)) = files s').
+    { intros s' HI' Hb' Hf'. unfold serve_rd.
+      destruct (Z.ltb_spec len 0); [lia|]. cbn [orb].
+      destruct (Z.gtb_spec (o + len) (num_in_rd (c_ s'))) as [Hshort|Hfull]; cbn [fst snd].
+      - (* the block has fewer bytes than asked for: the ideal store has nothing there either *)
+        split; auto. split; auto. cbn [read_post]. right. split; [congruence|]. split; auto.
+        destruct (Z.eq_dec len 0) as [|Hnz]; [left; auto|right].
+        exists (Z.max 0 (num_in_rd (c_ s') - o)). split; [lia|].
+        unfold ideal_at. rewrite Hm.
+        destruct (m (b * BLK + o + Z.max 0 (num_in_rd (c_ s') - o))) as [v|] eqn:Hv; auto.
+        exfalso. rewrite <- Hf' in Hm.
+        assert (Hblk : in_blk (last_rd_block (c_ s')) (b * BLK + o + Z.max 0 (num_in_rd (c_ s') - o)))
+          by (rewrite Hb'; unfold in_blk; lia).
+        destruct (inv_rd _ _ HI' m _ v Hm Hblk Hv) as [Hlt _]. rewrite Hb' in Hlt. lia.
+      - split; auto. split; auto. eapply read_from_rd_buffer; eauto; lia. }
     destruct ((num_in_rd (c_ s) <? BLK) || negb (b =? last_rd_block (c_ s)) || negb (f =? last_rd_file (c_ s))) eqn:Ecur.
     2: { (* the buffer is current *)
          apply orb_false_iff in Ecur. destruct Ecur as [Ecur E3]. apply orb_false_iff in Ecur. destruct Ecur as [E1 E2].
-         apply negb_false_iff in E2, E3. apply Z.eqb_eq in E2, E3. cbn [fst snd]. split; auto. }
+         apply negb_false_iff in E2, E3. apply Z.eqb_eq in E2, E3. apply Hpost; auto. }
     destruct ((b =? last_wr_block (c_ s)) && (f =? last_wr_file (c_ s))) eqn:Ewr.
     + (* served from the write buffer *)
       apply andb_true_iff in Ewr. destruct Ewr as [E1 E2]. apply Z.eqb_eq in E1, E2.
-      cbn [fst snd].
       assert (HI' : Inv (with_cache s (set_rd_id (set_rd_buf (c_ s) (wr_buf (c_ s))) b f BLK)) I).
       { destruct HI as [H1 H2 H3 H4 H5 H6 H7 H8 H9].
         constructor; cbn [c_ with_cache set_rd_id set_rd_buf last_wr_block last_wr_file flush_wr last_rd_block
@@ -706,7 +719,7 @@ Proof.
         - intros m' p v Hm' Hblk Hp. split; [unfold in_blk in Hblk; lia|].
           rewrite E1 in *. apply (H5 m' p v); auto. now rewrite <- E2.
         - intros _. unfold fget in *. cbn [files with_cache]. rewrite Hd. discriminate. }
-      split; auto. split; [exact (Hpost _ HI' eq_refl eq_refl)|reflexivity].
+      exact (Hpost _ HI' eq_refl eq_refl).
     + (* loaded from the file *)
       assert (Hnw : ~ (last_wr_block (c_ s) = b /\ last_wr_file (c_ s) = f)).
       { intros [X Y]. rewrite X, Y, !Z.eqb_refl in Ewr. discriminate. }
@@ -738,7 +751,32 @@ Proof.
             cbn [andb]. replace (Z.to_nat (p - b * BLK) - Z.to_nat 0)%nat with (Z.to_nat (p - b * BLK)) by lia.
             unfold bytes. rewrite nth_pread by (fold bytes; lia). rewrite <- Hv. f_equal. lia.
           - intros _. unfold fget in *. cbn [files with_cache]. rewrite Hd. discriminate. }
-        split; auto. split; [exact (Hpost _ HI' eq_refl eq_refl)|reflexivity].
+        exact (Hpost _ HI' eq_refl eq_refl).
+Qed.
+
+(* EXACTLY when a read of an open file is refused, for every state (no side condition) *)
+Lemma read_file_error_exact s f b o len d : fget s f = Some d ->
+  (fst (read_file s f b o len) = RErr FREAD_ERROR <-> read_fails s d f b o len = true) /\
+  (read_fails s d f b o len = false -> exists bs, fst (read_file s f b o len) = RBytes bs).
+Proof.
+  intros Hd. unfold read_file, read_fails, block_avail. rewrite Hd.
+  destruct (len + o >? BLK).
+  - destruct (lenZ (pread d (b * BLK + o) len) =? len); cbn [fst negb]; split; try (split; congruence); eauto; discriminate.
+  - destruct ((num_in_rd (c_ s) <? BLK) || negb (b =? last_rd_block (c_ s)) || negb (f =? last_rd_file (c_ s))) eqn:Ecur.
+    + destruct ((b =? last_wr_block (c_ s)) && (f =? last_wr_file (c_ s))).
+      * unfold serve_rd. cbn [c_ with_cache set_rd_id num_in_rd].
+        assert (E : (BLK <=? 0) = false) by (rewrite BLK_val; reflexivity). rewrite E. cbn [orb].
+        destruct ((len <? 0) || (o + len >? BLK)); cbn [fst]; split; try (split; congruence); eauto; discriminate.
+      * destruct (lenZ (pread d (b * BLK) BLK) <=? 0); cbn [fst orb].
+        -- split; [tauto|discriminate].
+        -- unfold serve_rd. cbn [c_ with_cache set_rd_id num_in_rd].
+           destruct ((len <? 0) || (o + len >? lenZ (pread d (b * BLK) BLK))); cbn [fst]; split; try (split; congruence); eauto; discriminate.
+    + (* a current buffer holds a full block *)
+      apply orb_false_iff in Ecur. destruct Ecur as [Ecur _]. apply orb_false_iff in Ecur. destruct Ecur as [E1 _].
+      apply Z.ltb_ge in E1.
+      assert (E : (num_in_rd (c_ s) <=? 0) = false) by (apply Z.leb_gt; rewrite BLK_val in E1; lia). rewrite E. cbn [orb].
+      unfold serve_rd.
+      destruct ((len <? 0) || (o + len >? num_in_rd (c_ s))); cbn [fst]; split; try (split; congruence); eauto; discriminate.
 Qed.
 
 (* ------------------------------------------------------------------ ADFI_flush_buffers, open, close *)
